@@ -1377,7 +1377,7 @@ def membership_test(e):
     if re.search(r"(HashSet|BTreeSet|HashMap|BTreeMap|HashMapDelay|LruTimeCache|LinkedHashMap)(<.*>)?::(contains|contains_key)$", n) and len(e[2]) == 2:
         return e[2][0], e[2][1], neg
     if re.search(r"Option::is_(some|none)$", n) and e[2] and e[2][0][0] == "call" and \
-            re.search(r"(HashSet|BTreeSet|HashMap|BTreeMap|HashMapDelay|LinkedHashMap)(<.*>)?::get$", short(e[2][0][1])) and len(e[2][0][2]) == 2:
+            re.search(r"(HashSet|BTreeSet|HashMap|BTreeMap|HashMapDelay|LinkedHashMap|LruTimeCache|ActiveRequests)(<.*>)?::(get|get_mut|peek)$", short(e[2][0][1])) and len(e[2][0][2]) == 2:
         inner = e[2][0]
         return inner[2][0], inner[2][1], neg != n.endswith("is_none")
     return None
